@@ -12,16 +12,18 @@ from .c07 import inner
 from .c01 import own_nodes
 
 EXPLANATION = (
-    "tk.to_tk / from_tk and tk.Circuit.get_counts are analysed from source (pytket is not run). Decided: (R13.1) the angle "
-    "conventions of writer and reader agree — export multiplies Rx/Rz/CRz phases by 2 (tket counts half turns, discopy full turns, "
-    "cf. C11), import divides by 2, and every exported gate name has an importer; (R13.2) the invariant stated in the source — at "
-    "layer i, len(qubits) and len(bits) equal the numbers of qubit and bit wires — is an effect typing of the handlers: for every "
-    "box signature obtained by abstract construction (Ket, Bits, Bra, Discard and the four flag combinations of Measure) the handler "
-    "changes len(qubits) / len(bits) by exactly the signature's Δ, with loops summarised by a verified per-iteration growth; "
-    "(R13.3) gates that take their dagger by a flag are exported with the flag translated; (R13.4) inside loops over a batch of "
-    "circuits the per-circuit state (post_selection, scalar) is read from the loop variable; (R13.5) the Born rule on scalars "
-    "agrees with cqmap.Functor; (R13.6) order and totality of the layer loop's dispatch. Not decided: equality of output "
-    "distributions on a simulator; which physical unit a rename lands on beyond arity; swap routing of from_tk.")
+    "tk.to_tk / from_tk and tk.Circuit are analysed from source (pytket is not run). Decided: (R13.1) the angle conventions of writer and reader agree — export "
+    "multiplies Rx/Rz/CRz phases by 2 (tket counts half turns, discopy full turns, cf. C11), import divides by 2, exported names have importers; (R13.2, R13.8) the "
+    "invariant stated in the source — at layer i, len(qubits) and len(bits) equal the numbers of qubit and bit wires — and its classical twin, one output of the "
+    "post-processing per open bit wire, as an effect typing of the handlers: for every box signature obtained by abstract construction (Ket, Bits, daggered Bits, "
+    "Bra, Discard, the four flag combinations of Measure, a generic classical gate) the handler changes the three counts by the signature's Δ, loops summarised by a "
+    "verified per-iteration growth; (R13.7) the registers renamed by prepare_qubits / prepare_bits are exactly those whose list entries are shifted, which needs the "
+    "list to be strictly increasing — every other writer of the list is checked to keep it so; (R13.9) add_bit receives the position at which the register enters "
+    "`bits`, and from_tk maps a register to its wire without counting post-selected registers; (R13.10) make_units_adjacent, as an effect on symbolic rows, leaves the "
+    "first qubit at `offset` and the second right after it; (R13.3) gates that take their dagger by a flag are exported as `<name>dg` and read back; (R13.4) inside loops "
+    "over a batch of circuits the per-circuit state is read from the loop variable and counts are indexed by the loop index; (R13.5) the Born rule on scalars agrees with "
+    "cqmap.Functor; (R13.6) order and totality of the dispatch for 20 box classes, init_and_discard, remove_ket1, the from_tk postlude; (R13.11) rename_units reads the old "
+    "post-selection before it writes. Not decided: equality of output distributions on a simulator; gates on three or more qubits in from_tk; Swap boxes.")
 
 TK, CQM = "discopy.quantum.tk", "discopy.quantum.cqmap"
 _fresh = itertools.count()
